@@ -124,7 +124,8 @@ fn project(c: &KyroDbConfig) -> Value {
     json!({
         "env": c.environment.environment_type,
         "fsync": name(serde_json::to_value(c.persistence.fsync_policy).unwrap()),
-        "snap": c.persistence.snapshot_interval_mutations,
+        // read through the accessor kyrodb_server builds the engine configuration from, not the raw field
+        "snap": c.snapshot_interval_mutations() as u64,
         "recovery": name(serde_json::to_value(c.persistence.recovery_mode).unwrap()),
         "cache": name(serde_json::to_value(c.cache.strategy).unwrap()),
         "auth": c.auth.enabled,
@@ -410,6 +411,7 @@ fn render(
         "toml" => 100,
         "yaml" => 200,
         "env" => 300,
+        "alias" => 500,
         _ => 400,
     };
     let envv = if plain { 0 } else { pick(seed, pass, i, salt + 1, ENV_SPELLINGS) };
@@ -417,6 +419,11 @@ fn render(
     let style = if plain { 0 } else { pick(seed, pass, i, salt + 3, 2) };
     let boolsp = if plain { 0 } else { pick(seed, pass, i, salt + 4, BOOL_SPELLINGS) };
     let http_opt = !plain && pick(seed, pass, i, salt + 5, 3) == 0;
+    // "alias": a file that uses the documented legacy spelling of the snapshot interval (serde alias
+    // `snapshot_interval_inserts`): the safety rule must not depend on the spelling.  A loader that refuses the
+    // spelling altogether (the pinned code: "duplicate field") is fine - refusing is never a violation.
+    let legacy_snap = fmt == "alias";
+    let sparse = sparse && !legacy_snap;
     let env_spelled = spell_env(&r.env, envv);
     let mut expected = row_json(r);
     expected["env"] = Value::String(env_spelled.clone());
@@ -429,6 +436,13 @@ fn render(
             defaults[k] != expected[k]
         });
     }
+    if legacy_snap {
+        for e in settings.iter_mut() {
+            if e.setting == Some("snap") {
+                e.path = vec!["persistence", "snapshot_interval_inserts"];
+            }
+        }
+    }
     let omitted: Vec<&str> = if sparse && fmt != "mix" {
         let kept: Vec<&str> = settings.iter().map(|e| e.setting.unwrap()).collect();
         ["env", "host", "obs", "tls", "fsync", "snap", "recovery", "fresh", "cache", "auth", "rl"]
@@ -439,7 +453,7 @@ fn render(
         vec![]
     };
     let ancs = ancillary_entries(r, anc, http_opt);
-    let note = json!({"env_name": env_spelled, "sparse_omitted": omitted, "style": style,
+    let note = json!({"env_name": env_spelled, "sparse_omitted": omitted, "style": style, "legacy_snap_key": legacy_snap,
                       "bool_spelling": if fmt == "env" || fmt == "mix" { boolsp } else { 0 }});
     match fmt {
         "toml" => {
@@ -456,6 +470,15 @@ fn render(
             let mut all = settings;
             all.extend(ancs);
             Rendering { fmt, file: None, env: render_env(&all, boolsp), expected, note }
+        }
+        "alias" => {
+            let mut all = settings;
+            all.extend(ancs);
+            if pick(seed, pass, i, salt + 7, 2) == 0 {
+                Rendering { fmt, file: Some(("toml".into(), render_toml(&all, style == 1))), env: vec![], expected, note }
+            } else {
+                Rendering { fmt, file: Some(("yaml".into(), render_yaml(&all, style == 1))), env: vec![], expected, note }
+            }
         }
         _ => {
             // file says something else for every setting; the environment must win
@@ -554,13 +577,14 @@ fn main() -> anyhow::Result<()> {
     let pass: u64 = arg_value(&args, "--pass").map(|s| s.parse().unwrap()).unwrap_or(0);
     let plain = arg_flag(&args, "--plain");
     let formats: Vec<&'static str> = arg_value(&args, "--formats")
-        .unwrap_or_else(|| "toml,yaml,env,mix".into())
+        .unwrap_or_else(|| "toml,yaml,env,mix,alias".into())
         .split(',')
         .map(|f| match f {
             "toml" => "toml",
             "yaml" => "yaml",
             "env" => "env",
             "mix" => "mix",
+            "alias" => "alias",
             other => panic!("unknown format {other}"),
         })
         .collect();
@@ -641,7 +665,8 @@ fn main() -> anyhow::Result<()> {
             let o = run_loader(&rd, &dir, &empty_toml);
             loads += 1;
             accepted += o.accepted as u64;
-            unfaithful += (!o.faithful) as u64;
+            // a refused legacy spelling is expected (and says nothing about the row): not counted as a rendering failure
+            unfaithful += (!o.faithful && !(fmt == "alias" && !o.accepted)) as u64;
             let outcome = if o.accepted { "accepted" } else { "rejected" };
             outs.push(json!({"fmt": rd.fmt, "outcome": outcome, "faithful": o.faithful}));
             let mut d = json!({"fmt": rd.fmt, "outcome": outcome, "err": o.err, "note": rd.note});
